@@ -113,3 +113,51 @@ def default_case(ebnf, texts, start='s', settings=None, **kw):
 
 def run_impl(cases, procs=16, chunk=8, fn=run_model_case):
     return pmap(fn, cases, procs=procs, chunk=chunk, recycle=240)
+
+
+def conformance(ck, items, check_value=True, check_pos=True, timeout=3000, classify=None, sample_every=500, impl_fn=run_model_case,
+                nontrivial=lambda so: so['k'] == 'ok'):
+    """items: dicts {g, texts, start?, cfg (spec cfg kwargs)?, settings (parse kwargs)?, label?, directives?, case (extra case fields)?}.
+    Evaluates PegSem on every (item, text), runs the real parser, compares.  classify(item, text, so, ir, why) may return a
+    known-finding id (the mismatch is then reported as KNOWN-FINDING if that id is listed) or None (-> VIOLATION).
+    Returns the list of mismatches [(item, text, so, ir, why)]."""
+    jobs, cases = Jobs(), []
+    for it in items:
+        ts = it['texts']
+        cfg = make_cfg(chars_of(it['g'], ts), **(it.get('cfg') or {}))
+        jobs.add(it['g'], cfg, ts, start=it.get('start', 's'))
+        ebnf = it.get('ebnf') or to_ebnf(it['g'], directives=it.get('directives'))
+        cases.append(default_case(ebnf, ts, start=it.get('start', 's'), settings=it.get('settings'), **(it.get('case') or {})))
+    r, spec = run_oracle(jobs, timeout=timeout)
+    ck.add_tlc(r, 'PegSemBatch')
+    impl = run_impl(cases, fn=impl_fn)
+    mism = []
+    seen = set()
+    n = 0
+    for j, (it, c, im) in enumerate(zip(items, cases, impl), 1):
+        if im['compile']['k'] != 'ok':
+            ck.violation({'kind': 'parse', 'inputs': {'grammar': c['ebnf']}, 'expected': 'grammar compiles',
+                          'observed': im['compile'], 'spec': 'PegGrammar'}, key='compile' + c['ebnf'])
+            continue
+        for t, (s, ir) in enumerate(zip(spec[j], im['res'])):
+            so = spec_outcome(s)
+            n += 1
+            ck.count(evaluations=1, traces=1)
+            if nontrivial(so):
+                seen.add((c['ebnf'], json.dumps(c['settings'], sort_keys=True, default=str), repr(so.get('v')), so['pos']))
+            why = compare(so, ir, check_value=check_value, check_pos=check_pos)
+            if n % sample_every == 1:
+                ck.sample({'label': it.get('label'), 'grammar': c['ebnf'], 'settings': c['settings'], 'text': c['texts'][t],
+                           'spec': so, 'impl': ir})
+            if not why:
+                continue
+            mism.append((it, c['texts'][t], so, ir, why))
+            kf = classify(it, c['texts'][t], so, ir, why) if classify else None
+            if kf and ck.known(kf, f"{c['ebnf'].strip()} on {c['texts'][t]!r}: {why}"):
+                continue
+            ck.violation({'kind': 'parse', 'inputs': {'grammar': c['ebnf'], 'text': c['texts'][t], 'start': c['start'],
+                                                      'settings': c['settings'], 'label': it.get('label')},
+                          'expected': so, 'observed': ir, 'why': why, 'spec': 'PegSem!Parse'},
+                         key=c['ebnf'] + why.split(':')[0])
+    ck.cov['distinct_nontrivial'] += len(seen)
+    return mism
